@@ -9,11 +9,147 @@ use serde_json::json;
 pub struct C08 {
     tier: Tier,
     small: bool,
+    forms: Vec<iced_x86::Code>,
+    base: Vec<Vec<u8>>,
 }
 
 impl C08 {
     pub fn new(tier: Tier) -> C08 {
-        C08 { tier, small: false }
+        let base: Vec<Vec<u8>> = crate::hw::REGIONS
+            .iter()
+            .map(|r| {
+                let mut v = Vec::with_capacity(r.len);
+                let mut a = r.start;
+                while v.len() < r.len {
+                    v.extend_from_slice(&crate::hw::base_cell(a).to_le_bytes());
+                    a += 8;
+                }
+                v
+            })
+            .collect();
+        C08 { tier, small: false, forms: crate::hw::gen::all_forms(), base }
+    }
+}
+
+impl C08 {
+    /// "through guest loads and stores" means every instruction form with a memory operand, not only MOV: one
+    /// encoding of an implemented form is steered so that its operand lies exactly at an edge of a writable area
+    /// (last valid position, one byte past it, first byte, one byte before it). The verdict on the access comes from
+    /// the same machine with that area one page larger on both sides: if the instruction works there, then at the
+    /// edge it must work identically when every byte is mapped, and fail without changing anything when one is not.
+    fn form_sweep(&self, k: u64, rng: &mut Rng, col: &mut Collector) {
+        use crate::hw::gen::*;
+        use crate::hw::*;
+        use iced_x86::OpKind;
+        let rip = run::CODE_RIP;
+        for _ in 0..(if self.small { 2 } else { 16 }) {
+            let code = *rng.pick(&self.forms);
+            let gopts = GenOpts { mem: MemMode::Always, addr32: true, seg: rng.below(4) == 0, imm: None };
+            let Some(bytes) = build_g1(rng, code, rip, &gopts) else { continue };
+            let Some(ins) = decode(&bytes, rip) else { continue };
+            if !has_mem_operand(&ins) || ins.mnemonic() == iced_x86::Mnemonic::Lea || !(0..ins.op_count()).any(|i| ins.op_kind(i) == OpKind::Memory) {
+                continue;
+            }
+            // the operand must really be accessed (multi-byte NOP, prefetches etc. only name an address), unconditionally
+            {
+                let mut fac = iced_x86::InstructionInfoFactory::new();
+                let info = fac.info(&ins);
+                let accessed = (0..ins.op_count()).filter(|i| ins.op_kind(*i) == OpKind::Memory).all(|i| matches!(info.op_access(i), iced_x86::OpAccess::Read | iced_x86::OpAccess::Write | iced_x86::OpAccess::ReadWrite));
+                if !accessed {
+                    continue;
+                }
+            }
+            let target = *rng.pick(&[Target::LastValid, Target::LastValid, Target::OnePast, Target::OnePast, Target::FirstByte, Target::BeforeStart]);
+            let st = steer(rng, &ins, &bytes, rip, &SteerOpts { target: Some(target), flags: None, rcx: None });
+            if st.invalid {
+                continue;
+            }
+            let t = st.trial;
+            if ins.is_stack_instruction() && !(t.gpr[4] >= STACK + 0x100 && t.gpr[4] < STACK + STACK_LEN as u64 - 0x100) {
+                continue;
+            }
+            let Some(ea) = arch_ea(&ins, &t) else { continue };
+            let size = ins.memory_size().size() as u64;
+            if size == 0 {
+                continue;
+            }
+            // which writable region is the operand at the edge of, and are all its bytes inside?
+            let Some(ri) = [R_DATA, R_STACK, R_HIGH].into_iter().find(|&ri| {
+                let (s, l) = (REGIONS[ri].start, REGIONS[ri].len as u64);
+                ea.wrapping_add(size) > s.wrapping_sub(0x800) && ea < s + l + 0x800
+            }) else {
+                continue;
+            };
+            let (rs, rl) = (REGIONS[ri].start, REGIONS[ri].len as u64);
+            let inside = ea >= rs && ea.saturating_add(size) <= rs + rl;
+            let mut pre = self.base.clone();
+            let mut apply = |pre: &mut Vec<Vec<u8>>, addr: u64, b: &[u8]| {
+                if let Some(r) = region_of(addr) {
+                    let off = (addr - REGIONS[r].start) as usize;
+                    let n = b.len().min(REGIONS[r].len - off);
+                    pre[r][off..off + n].copy_from_slice(&b[..n]);
+                }
+            };
+            for (a, b) in &t.patches {
+                apply(&mut pre, *a, b);
+            }
+            apply(&mut pre, t.rip, &t.code);
+            let desc = format!("{} [{}] operand [{:#x},+{}) at the edge of area [{:#x},+{:#x}) ({})", ins, hex(&t.code), ea, size, rs, rl, if inside { "all bytes inside" } else { "not all bytes inside" });
+            col.publish("form_sweep", &desc);
+            type Post = (Call<bool>, [u64; 16], [u128; 16], u64, u64, Vec<u8>);
+            let observe = |mut ax: Axecutor, ext: bool| -> Post {
+                let r = call(|| block_on(ax.step()));
+                let mut g = [0u64; 16];
+                for (i, reg) in GPR64.iter().enumerate() {
+                    g[i] = ax.reg_read_64(sr(*reg)).unwrap_or(0);
+                }
+                let mut x = [0u128; 16];
+                for i in 0..16u32 {
+                    x[i as usize] = ax.reg_read_128(sr(iced_x86::Register::XMM0 + i)).unwrap_or(0);
+                }
+                let mut mem = Vec::new();
+                ax.verif_for_each_area(|start, _acc, data| {
+                    if !ext && start == rs {
+                        mem = data.to_vec();
+                    } else if ext && start == rs - 0x1000 {
+                        mem = data[0x1000..0x1000 + rl as usize].to_vec();
+                    }
+                });
+                (r, g, x, ax.reg_read_64(SR::RIP).unwrap_or(0), ax.verif_rflags(), mem)
+            };
+            let (Ok(Ok(wide)), Ok(Ok(narrow))) = (catch(|| build_mirror_ext(&t, &pre, ri)), catch(|| build_mirror(&t, &pre))) else { continue };
+            let w = observe(wide, true);
+            if !w.0.is_ok() {
+                col.count("form_sweep_not_executable_in_the_wide_area", 1);
+                continue;
+            }
+            let n = observe(narrow, false);
+            col.eval(2);
+            col.distinct_key(&format!("sweep|{:?}|{:?}|{}", ins.mnemonic(), target, inside));
+            col.set_insert("form_sweep_forms", &format!("{:?}", ins.code()));
+            let fail = |col: &mut Collector, rule: &str, detail: String| {
+                col.violation_case(&format!("form_sweep:{}:{:?}", rule, ins.code()), k, format!("{} :: {}", desc, detail), json!({"instruction": format!("{}", ins), "bytes": hex(&t.code), "operand": format!("{:#x}", ea), "size": size, "problem": detail}));
+            };
+            if n.0.is_panic() {
+                return fail(col, "panic", n.0.describe());
+            }
+            if inside {
+                if !n.0.is_ok() {
+                    return fail(col, "valid-access-failed", format!("every byte of the operand is mapped, yet {}", n.0.describe()));
+                }
+                if n.1 != w.1 || n.2 != w.2 || n.3 != w.3 || n.4 != w.4 || n.5 != w.5 {
+                    return fail(col, "result-depends-on-what-lies-beyond-the-operand", "registers, flags or memory differ from the run in which the area is larger".into());
+                }
+            } else {
+                if n.0.is_ok() {
+                    return fail(col, "invalid-access-succeeded", "a byte of the operand lies outside the area, yet step() returned Ok".into());
+                }
+                if n.5 != pre[ri] {
+                    return fail(col, "failed-access-changed-memory", "step() failed but the area changed".into());
+                }
+            }
+            col.count("form_sweep_instructions", 1);
+        }
     }
 }
 
@@ -476,7 +612,11 @@ impl Monitor for C08 {
         self.tier.pick(30_000, 1_000_000)
     }
     fn run_case(&mut self, k: u64, rng: &mut Rng, col: &mut Collector) {
-        self.history(k, rng, col);
+        if k % 3 == 2 {
+            self.form_sweep(k, rng, col);
+        } else {
+            self.history(k, rng, col);
+        }
     }
     fn shrink(&mut self) {
         self.small = true;
